@@ -1,5 +1,8 @@
 import Proofs.Route
 import PikoModel.Generated.Facts
+import Proofs.SysSettle
+import Props.C03
+import Props.C04
 /-!
 # C01 — Requests reach only upstreams of the addressed endpoint, from any node
 
@@ -204,4 +207,240 @@ example : Settled settled2 ∧ NoGone settled2 ∧
   ⟨settled2_ok, fun _ _ _ => rfl, by decide, by decide⟩
 
 end C01Ex
+/-! ## The whole system: "once routing information has settled" is a theorem, not a hypothesis
+
+`PikoModel/Sys/System.lean` wires gossip, syncer and upstream manager of every node into one state
+`Sys`; `Sys.world s` (`Proofs/SysSettle.lean`) is the `World` of the routing model whose managers and
+routing views are the ones of `s`.  A *settle schedule* is any list of receive-side steps
+(`SysOp.quiet`: digests, deliveries of any pooled packet at any truncation, stream joins with or
+without reply, leave streams, failure-detector rounds) - no `addConn`/`removeConn`, no boot, leave
+or compaction - that contains the full exchange `join r a` for every ordered pair of nodes.  After
+it, `C03_converges_all` makes every view caught up, `C04_mirror_system` makes every routing-table row
+the owner's truth, and that is the hypothesis `Settled` of `C01_settled`. -/
+
+open Piko.Gossip in
+theorem sysAllowed_append : ∀ (sched ops : List SysOp), SysAllowed (sched ++ ops) → SysAllowed ops
+  | [], _, h => h
+  | _ :: sched, ops, h => sysAllowed_append sched ops h.1
+
+/-- what `C01_settled_system` assumes about the configuration and the failure detectors at the end
+of the settle schedule: nobody has left or is suspected, every node advertises non-empty addresses,
+proxy addresses are pairwise distinct, and no endpoint has 2^63 upstreams on one node -/
+structure SysHealthy (s : Sys) : Prop where
+  notLeft : ∀ n x, s.node n = some x → (Gossip.own x.mgr.gossip).left = false
+  reachable : ∀ n x a V, s.node n = some x → x.mgr.gossip.nodes.find a = some V → V.unreachable = false
+  addrs : ∀ n x, s.node n = some x →
+    x.mgr.cluster.localNode.proxyAddr ≠ "" ∧ x.mgr.cluster.localNode.adminAddr ≠ ""
+  small : ∀ n x e, s.node n = some x → (x.mgr.registry e).length < 2 ^ 63
+  distinct : ∀ a b xa xb, s.node a = some xa → s.node b = some xb →
+    xa.mgr.cluster.localNode.proxyAddr = xb.mgr.cluster.localNode.proxyAddr → a = b
+
+open Piko.Gossip in
+/-- after a settle schedule every node's view of every other node is caught up -/
+theorem C01_system_caught_up (ops sched : List SysOp) (hall : SysAllowed (sched ++ ops))
+    (hq : ∀ op ∈ sched, op.quiet.isSome = true)
+    (hjoins : ∀ r a, r ≠ a → ((Sys.runRev ops).node r).isSome = true → ((Sys.runRev ops).node a).isSome = true →
+      ∃ now, SysOp.join r a true now ∈ sched)
+    (r a : String) (hne : r ≠ a) (xr xa : SysNode)
+    (hr : (Sys.runRev (sched ++ ops)).node r = some xr) (ha : (Sys.runRev (sched ++ ops)).node a = some xa) :
+    ∃ V, xr.mgr.gossip.nodes.find a = some V ∧ V.version = (own xa.mgr.gossip).version := by
+  obtain ⟨sdr1, gr1, hsr1, hgr1, rfl⟩ := Sys.node_eq hr
+  obtain ⟨sda1, ga1, hsa1, hga1, rfl⟩ := Sys.node_eq ha
+  have hall0 := sysAllowed_append sched ops hall
+  have hinv0 := sysInv_runRev ops hall0
+  -- both nodes existed when the schedule started
+  have hdom := Sys.side_dom_quiet sched ops hq
+  have hnode0 : ∀ k sd1, (Sys.runRev (sched ++ ops)).side.find k = some sd1 →
+      ∃ sd0 g0, (Sys.runRev ops).side.find k = some sd0 ∧ (Sys.runRev ops).net.nodes.find k = some g0 := by
+    intro k sd1 hk
+    have := hdom k
+    rw [hk] at this
+    cases hs0 : (Sys.runRev ops).side.find k with
+    | none => rw [hs0] at this; cases this
+    | some sd0 =>
+      obtain ⟨g0, hg0⟩ := hinv0.net_of_side hs0
+      exact ⟨sd0, g0, rfl, hg0⟩
+  obtain ⟨sdr0, gr0, hsr0, hgr0⟩ := hnode0 r sdr1 hsr1
+  obtain ⟨sda0, ga0, hsa0, hga0⟩ := hnode0 a sda1 hsa1
+  -- the gossip histories
+  have hN := Sys.netHist_append_quiet sched ops hq
+  have hallN : AllowedRev (sched.filterMap SysOp.quiet ++ Sys.netHist ops) := by
+    rw [← hN]; exact allowedRev_netHist _ hall
+  have hqN : ∀ op ∈ sched.filterMap SysOp.quiet, Quiet op := by
+    intro g hg
+    obtain ⟨op, _, hop⟩ := List.mem_filterMap.mp hg
+    exact Sys.quiet_isQuiet hop
+  have hnodeSome : ∀ k g, (runRev (Sys.netHist ops)).net.nodes.find k = some g → ((Sys.runRev ops).node k).isSome = true := by
+    intro k g hk
+    rw [← Sys.runRev_net] at hk
+    obtain ⟨sd, hsd⟩ := hinv0.side_of_net hk
+    simp [Sys.node, hsd, hk]
+  have hschedN : ∀ r a sr sa, r ≠ a → (runRev (Sys.netHist ops)).net.nodes.find r = some sr →
+      (runRev (Sys.netHist ops)).net.nodes.find a = some sa → (own sa).entries ≠ [] →
+      ∃ now, Op.join r a true now ∈ sched.filterMap SysOp.quiet := by
+    intro r a sr sa hne hr ha _
+    obtain ⟨now, hj⟩ := hjoins r a hne (hnodeSome r sr hr) (hnodeSome a sa ha)
+    exact ⟨now, List.mem_filterMap.mpr ⟨_, hj, rfl⟩⟩
+  -- the owner publishes at least its proxy address
+  have hent : (own ga0).entries ≠ [] := by
+    have hp := (hinv0.node a sda0 ga0 hsa0 hga0).paddr
+    intro h0
+    simp [liveValue, h0] at hp
+  obtain ⟨sr', sa', V, h1, h2, h3, h4, h5, _⟩ :=
+    C03_converges_all hallN hqN hschedN r a gr0 ga0 hne
+      (by rw [← Sys.runRev_net]; exact hgr0) (by rw [← Sys.runRev_net]; exact hga0) hent
+  rw [← hN, ← Sys.runRev_net] at h1 h2
+  rw [hgr1] at h1; cases h1
+  rw [hga1] at h2; cases h2
+  exact ⟨V, h4, by rw [h5, h3]⟩
+
+open Piko.Gossip Piko.Cluster in
+/-- **The system settles**: after a settle schedule on a healthy cluster the routing world of the
+resulting state satisfies the hypothesis `Settled` of `C01_settled` ("views = truth"). -/
+theorem C01_system_settles (ops sched : List SysOp) (hall : SysAllowed (sched ++ ops))
+    (hq : ∀ op ∈ sched, op.quiet.isSome = true)
+    (hjoins : ∀ r a, r ≠ a → ((Sys.runRev ops).node r).isSome = true → ((Sys.runRev ops).node a).isSome = true →
+      ∃ now, SysOp.join r a true now ∈ sched)
+    (hh : SysHealthy (Sys.runRev (sched ++ ops))) :
+    Settled (Sys.runRev (sched ++ ops)).world ∧ NoGone (Sys.runRev (sched ++ ops)).world := by
+  have hinv := sysInv_runRev _ hall
+  have hcaught := C01_system_caught_up ops sched hall hq hjoins
+  -- the mirror, for every ordered pair of nodes of the final state
+  have hmirror : ∀ n k xn xk, n ≠ k → (Sys.runRev (sched ++ ops)).node n = some xn →
+      (Sys.runRev (sched ++ ops)).node k = some xk →
+      ∃ row, xn.mgr.cluster.nodes.find k = some row ∧ row.id = k ∧ row.status = .active ∧
+        row.proxyAddr = xk.mgr.cluster.localNode.proxyAddr ∧
+        ∀ e, row.endpoints.find e =
+          if (xk.mgr.registry e).length = 0 then none else some ((xk.mgr.registry e).length : Int) := by
+    intro n k xn xk hnk hn hk
+    obtain ⟨V, hV, hver⟩ := hcaught n k hnk xn xk hn hk
+    obtain ⟨_, row, hrow, _, hid, hp, _, hes, hst⟩ := C04_mirror_system _ hall n k hnk xn xk hn hk V hV hver
+      (hh.notLeft k xk hk) (hh.addrs k xk hk).1 (hh.addrs k xk hk).2 (fun e => hh.small k xk e hk)
+    refine ⟨row, hrow, hid, ?_, hp, hes⟩
+    rw [hst, hh.reachable n xn k V hn hV]; rfl
+  refine ⟨⟨?_, ?_, ?_, ?_⟩, fun _ _ _ => rfl⟩
+  · -- every manager carries its own id
+    intro n m hm
+    rw [Sys.world_find hinv] at hm
+    cases hx : (Sys.runRev (sched ++ ops)).node n with
+    | none => rw [hx] at hm; cases hm
+    | some x =>
+      rw [hx] at hm; simp only [Option.map_some, Option.some.injEq] at hm; subst hm
+      obtain ⟨sd, g, hsd, hg, rfl⟩ := Sys.node_eq hx
+      exact (hinv.node n sd g hsd hg).tlid
+  · intro n m hm
+    rw [Sys.world_find hinv] at hm
+    cases hx : (Sys.runRev (sched ++ ops)).node n with
+    | none => rw [hx] at hm; cases hm
+    | some x =>
+      rw [hx] at hm; simp only [Option.map_some, Option.some.injEq] at hm; subst hm
+      obtain ⟨sd, g, hsd, hg, rfl⟩ := Sys.node_eq hx
+      exact (hinv.node n sd g hsd hg).minv.lbs
+  · -- every remote row is the truth about a real node
+    intro n m hm c hc hcid
+    rw [Sys.world_find hinv] at hm
+    cases hx : (Sys.runRev (sched ++ ops)).node n with
+    | none => rw [hx] at hm; cases hm
+    | some x =>
+      rw [hx] at hm; simp only [Option.map_some, Option.some.injEq] at hm; subst hm
+      obtain ⟨sd, g, hsd, hg, rfl⟩ := Sys.node_eq hx
+      have hni := hinv.node n sd g hsd hg
+      simp only [] at hc
+      obtain ⟨k, hkc⟩ := AMap.mem_vals.mp hc
+      have hfind : sd.table.nodes.find k = some c := AMap.find_of_mem hni.tnd hkc
+      have hkn : k ≠ n := by
+        intro e
+        subst e
+        obtain ⟨row, hrow, hid⟩ := hni.tloc
+        rw [hfind] at hrow; cases hrow
+        exact hcid hid
+      -- `k` is remembered by gossip, hence a node of the network
+      obtain ⟨V, hV⟩ := hni.row_known hkn hfind
+      have hnet := netInv_sys _ hall
+      have hgN : (runRev (Sys.netHist (sched ++ ops))).net.nodes.find n = some g := by
+        rw [← Sys.runRev_net]; exact hg
+      obtain ⟨H, O, hW⟩ := (hnet.node n g hgN).recv.known k V hV
+      have hkNet : ∃ gk, (Sys.runRev (sched ++ ops)).net.nodes.find k = some gk := by
+        rw [Sys.runRev_net]
+        unfold GNet.world at hW
+        cases hf : (runRev (Sys.netHist (sched ++ ops))).net.nodes.find k with
+        | none => simp [hf] at hW
+        | some gk => exact ⟨gk, rfl⟩
+      obtain ⟨gk, hgk⟩ := hkNet
+      obtain ⟨sdk, hsdk⟩ := hinv.side_of_net hgk
+      have hxk : (Sys.runRev (sched ++ ops)).node k =
+          some { mgr := { lbs := sdk.lbs, cluster := sdk.table, gossip := gk }, sync := sdk.sync, evs := sdk.evs } := by
+        simp [Sys.node, hsdk, hgk]
+      obtain ⟨row, hrow, hid, hst, hp, hes⟩ := hmirror n k _ _ (fun e => hkn e.symm) hx hxk
+      simp only [] at hrow hp hes
+      rw [hfind] at hrow; cases hrow
+      refine ⟨hst, ?_, _, by rw [Sys.world_find hinv, hid, hxk]; rfl, fun e => ?_⟩
+      · rw [hp, hid]
+        refine Sys.world_listen hinv ?_ hsdk
+        intro a b sda sdb hsa hsb hab
+        obtain ⟨ga', hga'⟩ := hinv.net_of_side hsa
+        obtain ⟨gb', hgb'⟩ := hinv.net_of_side hsb
+        exact hh.distinct a b _ _ (by simp [Sys.node, hsa, hga']; rfl) (by simp [Sys.node, hsb, hgb']; rfl) hab
+      · simp only [Cluster.Node.serves, hes e]
+        by_cases h0 : (Upstream.Mgr.registry { lbs := sdk.lbs, cluster := sdk.table, gossip := gk } e).length = 0
+        · simp [List.length_eq_zero_iff.mp h0]
+        · have hne : Upstream.Mgr.registry { lbs := sdk.lbs, cluster := sdk.table, gossip := gk } e ≠ [] :=
+            fun e0 => h0 (by rw [e0]; rfl)
+          simp only [h0, if_false, hne, ne_eq, not_false_eq_true, iff_true, decide_eq_true_eq]
+          omega
+  · -- every node has a row for every other node
+    intro n m k mk hm hk hkn
+    rw [Sys.world_find hinv] at hm hk
+    cases hx : (Sys.runRev (sched ++ ops)).node n with
+    | none => rw [hx] at hm; cases hm
+    | some x =>
+      cases hxk : (Sys.runRev (sched ++ ops)).node k with
+      | none => rw [hxk] at hk; cases hk
+      | some xk =>
+        rw [hx] at hm; simp only [Option.map_some, Option.some.injEq] at hm; subst hm
+        obtain ⟨row, hrow, hid, _⟩ := hmirror n k x xk (fun e => hkn e.symm) hx hxk
+        exact ⟨row, AMap.mem_vals.mpr ⟨k, AMap.mem_of_find hrow⟩, hid⟩
+
+/-- **C01, second sentence, about the one system model.**  Let `ops` be any allowed history of the
+whole system (boots, upstream connects and disconnects, gossip traffic with loss, duplication,
+reordering and truncation, compactions, …) and `sched` a settle schedule: receive-side steps only,
+containing the exchange `join r a` for every ordered pair of nodes, on a healthy cluster
+(`SysHealthy`).  Then in the resulting state a client request for endpoint `e` entering at ANY node
+is delivered to an upstream registered for `e` on some node if some node has one, and is answered
+502 by the entry node if none has. -/
+theorem C01_settled_system (ops sched : List SysOp) (hall : SysAllowed (sched ++ ops))
+    (hq : ∀ op ∈ sched, op.quiet.isSome = true)
+    (hjoins : ∀ r a, r ≠ a → ((Sys.runRev ops).node r).isSome = true → ((Sys.runRev ops).node a).isSome = true →
+      ∃ now, SysOp.join r a true now ∈ sched)
+    (hh : SysHealthy (Sys.runRev (sched ++ ops)))
+    (lib : Lib) (entry : String) (x : SysNode) (hentry : (Sys.runRev (sched ++ ops)).node entry = some x)
+    (r : Req) (hnf : r.forwarded = false) (e : String) (he : endpointOf lib r = some e) (choices : List Nat) :
+    ((∃ k xk, (Sys.runRev (sched ++ ops)).node k = some xk ∧ xk.mgr.registry e ≠ []) →
+        ∃ k xk u, (Sys.runRev (sched ++ ops)).node k = some xk ∧ u ∈ xk.mgr.registry e ∧
+          (route lib (Sys.runRev (sched ++ ops)).world entry r choices).1.outcome = .served k e u) ∧
+    ((∀ k xk, (Sys.runRev (sched ++ ops)).node k = some xk → xk.mgr.registry e = []) →
+        (route lib (Sys.runRev (sched ++ ops)).world entry r choices).1 =
+          { visited := [entry], via := [], outcome := .noUpstream entry }) := by
+  have hinv := sysInv_runRev _ hall
+  obtain ⟨hs, hng⟩ := C01_system_settles ops sched hall hq hjoins hh
+  have hm : (Sys.runRev (sched ++ ops)).world.nodes.find entry = some x.mgr := by
+    rw [Sys.world_find hinv, hentry]; rfl
+  have hset := C01_settled lib _ hs hng entry x.mgr hm r hnf e he choices
+  constructor
+  · rintro ⟨k, xk, hk, hreg⟩
+    obtain ⟨k', u, hout, hu⟩ := hset.1 ⟨k, by rw [Sys.world_reg hinv, hk]; exact hreg⟩
+    rw [Sys.world_reg hinv] at hu
+    cases hxk' : (Sys.runRev (sched ++ ops)).node k' with
+    | none => rw [hxk'] at hu; simp at hu
+    | some xk' =>
+      rw [hxk'] at hu
+      exact ⟨k', xk', u, hxk', hu, hout⟩
+  · intro hnone
+    apply hset.2
+    intro k
+    rw [Sys.world_reg hinv]
+    cases hxk : (Sys.runRev (sched ++ ops)).node k with
+    | none => rfl
+    | some xk => exact hnone k xk hxk
+
 end Piko
